@@ -81,13 +81,12 @@ pub fn instantiate(
         );
     }
 
-    let config = Config {
+    let mut config = Config {
         stages: msg.stages.clone(),
         num_members: msg.members.iter().map(|m| m.len() as u32).sum(),
         member_limit: msg.member_limit,
         whale_cap: msg.whale_cap,
     };
-    CONFIG.save(deps.storage, &config)?;
 
     let admin_config = AdminList {
         admins: map_validate(deps.api, &msg.admins)?,
@@ -105,12 +104,10 @@ pub fn instantiate(
         });
     }
 
+    // only count distinct members per stage, duplicates are skipped
+    config.num_members = 0;
     for stage in 0..msg.stages.clone().len() {
-        MEMBER_COUNT.save(
-            deps.storage,
-            stage as u32,
-            &(msg.members[stage].len() as u32),
-        )?;
+        let mut stage_member_count = 0u32;
         for member in msg.members[stage].iter() {
             let addr = deps.api.addr_validate(&member.address)?;
             if let Some(whale_cap) = config.whale_cap {
@@ -118,9 +115,16 @@ pub fn instantiate(
                     return Err(ContractError::ExceededWhaleCap {});
                 }
             }
+            if WHITELIST_STAGES.has(deps.storage, (stage as u32, addr.clone())) {
+                continue;
+            }
             WHITELIST_STAGES.save(deps.storage, (stage as u32, addr), &member.mint_count)?;
+            stage_member_count += 1;
         }
+        MEMBER_COUNT.save(deps.storage, stage as u32, &stage_member_count)?;
+        config.num_members += stage_member_count;
     }
+    CONFIG.save(deps.storage, &config)?;
 
     Ok(res
         .add_attribute("action", "instantiate")
@@ -286,7 +290,8 @@ pub fn execute_add_stage(
     validate_stages(&env, &config.stages)?;
     let stage_id = config.stages.len().saturating_sub(1) as u32;
 
-    for add in members.clone().into_iter() {
+    let mut members_added = 0u32;
+    for add in members.into_iter() {
         if config.num_members >= config.member_limit {
             return Err(ContractError::MembersExceeded {
                 expected: config.member_limit,
@@ -304,8 +309,9 @@ pub fn execute_add_stage(
         }
         WHITELIST_STAGES.save(deps.storage, (stage_id, addr.clone()), &add.mint_count)?;
         config.num_members += 1;
+        members_added += 1;
     }
-    MEMBER_COUNT.save(deps.storage, stage_id, &(members.len() as u32))?;
+    MEMBER_COUNT.save(deps.storage, stage_id, &members_added)?;
 
     CONFIG.save(deps.storage, &config)?;
     Ok(Response::new()
